@@ -489,7 +489,7 @@ def _set_vars(fnode):
                 is_set = isinstance(v, (ast.Set, ast.SetComp)) or \
                     (isinstance(v, ast.Call) and attr_chain(v.func) in SET_MAKERS) or \
                     (isinstance(v, ast.Call) and isinstance(v.func, ast.Attribute) and v.func.attr in SET_METHODS
-                     and isinstance(v.func.value, ast.Name) and v.func.value.id in sets) or \
+                     and _is_set_expr(v.func.value, sets)) or \
                     (isinstance(v, ast.Name) and v.id in sets) or \
                     (isinstance(v, ast.BinOp) and isinstance(v.op, (ast.BitOr, ast.BitAnd, ast.Sub, ast.BitXor))
                      and any(isinstance(x, ast.Name) and x.id in sets for x in (v.left, v.right)))
